@@ -71,6 +71,7 @@ class Engine(StmtMixin):
             for cl in self.yield_clauses(c, k):
                 self.oblige(st, self.eval_clause(cl, st, ictx), "yield-inv", line, f"yield{k}:{cl.name}", cl.tags)
             chunk = smt.fresh("chunk", smt.Bytes)
+            st.set(ctx.frame, "Tprev", fr["T"])  # ghost: the stream at the last suspension (T == Tprev ++ last chunk)
             st.set(ctx.frame, "T", z3.Concat(fr["T"], chunk))
             return (st, chunk)
         if c.gen == "buf":
@@ -148,6 +149,18 @@ class Engine(StmtMixin):
         """One resumption of a generator object: its contract instantiated at the extended ghost stream."""
         gd = st.heap[g.oid]
         fi, c, frame = gd["$fi"], gd["$c"], gd["$frame"]
+        for flag in ("started", "finished"):
+            # after a loop cut the flags are symbolic: the loop invariant must decide them
+            v = gd[flag]
+            if is_z3(v):
+                v = z3.simplify(v)
+                if z3.is_true(v) or (not z3.is_false(v) and self.prover(st)(v)):
+                    gd[flag] = True
+                elif z3.is_false(v) or self.prover(st)(z3.Not(v)):
+                    gd[flag] = False
+                else:
+                    raise EngineError(f"{ctx.func.key()}:{line}: generator object {fi.qualname}: `{flag}` is not decided here "
+                                      f"(state it in the loop invariant)")
         if gd["finished"] is True:
             return [(st, self.raise_py(st, StopIteration))]
         if first and gd["started"]:
@@ -182,7 +195,7 @@ class Engine(StmtMixin):
         results = []
         # (a) suspended again
         s1 = st.clone()
-        sp = {"T": X}
+        sp = {"T": X, "Tprev": T}
         ret: Any = None
         if c.gen == "buf":
             p = smt.fresh("yielded_pos", smt.I)
@@ -198,10 +211,10 @@ class Engine(StmtMixin):
             s1.assume(self.eval_clause(cl, s1, sctx))
         self.assume_some_yield(s1, c, sctx)
         if self.feasible(s1):
-            d1 = s1.heap[g.oid]
-            d1["T"], d1["started"] = X, True
+            s1.set(g, "T", X)
+            s1.set(g, "started", True)
             if c.gen == "buf":
-                d1["pos"] = posn
+                s1.set(g, "pos", posn)
             results.append((s1, ret))
         # (b) raised
         for cname, clauses in c.raises.items():
@@ -209,27 +222,29 @@ class Engine(StmtMixin):
             cls = self.class_by_name(cname)
             exc = self.make_exc(s2, cls, ())
             self.populate_exc(s2, exc, cname, c)
-            ectx = self.spec_ctx(fi, frame, (old, frame), {"T": X, "exc": exc})
+            ectx = self.spec_ctx(fi, frame, (old, frame), {"T": X, "Tprev": T, "exc": exc})
             for pth in c.modifies:
                 if not (c.gen == "buf" and pth.strip() == c.gen_buffer):
                     self.havoc_path(s2, ectx, pth)
             for cl in clauses:
                 s2.assume(self.eval_clause(cl, s2, ectx))
             if self.feasible(s2):
-                d2 = s2.heap[g.oid]
-                d2["T"], d2["started"], d2["finished"] = X, True, True
+                s2.set(g, "T", X)
+                s2.set(g, "started", True)
+                s2.set(g, "finished", True)
                 results.append((s2, Raise(exc)))
         # (c) returned
         res = self.make_symbolic(st, c.result, "ret")
-        nctx = self.spec_ctx(fi, frame, (old, frame), {"T": X, "result": res})
+        nctx = self.spec_ctx(fi, frame, (old, frame), {"T": X, "Tprev": T, "result": res})
         for pth in c.modifies:
             if not (c.gen == "buf" and pth.strip() == c.gen_buffer):
                 self.havoc_path(st, nctx, pth)
         for cl in c.ensures:
             st.assume(self.eval_clause(cl, st, nctx))
         if self.feasible(st):
-            d3 = st.heap[g.oid]
-            d3["T"], d3["started"], d3["finished"] = X, True, True
+            st.set(g, "T", X)
+            st.set(g, "started", True)
+            st.set(g, "finished", True)
             results.append((st, Raise(self.make_exc(st, PyClass(StopIteration), (res,)))))
         return results
 
@@ -248,15 +263,56 @@ class Engine(StmtMixin):
         return res
 
     def gen_close(self, st: State, g: Ref):
-        st.heap[g.oid]["finished"] = True
-        st.heap[g.oid]["started"] = True
+        st.set(g, "finished", True)
+        st.set(g, "started", True)
         return [(st, None)]
+
+    def gen_top(self, ctx: Ctx, e) -> tuple[Ctx, int]:
+        """The generator under contract on whose behalf a yield / yield from is executed: the function itself, or - inside the
+        body of a generator function inlined at a `yield from` - the caller (with the ordinal of that `yield from`)."""
+        gt = ctx.specials.get("$gen_top")
+        if gt is not None:
+            return gt
+        return ctx, ctx.yield_ord[id(e)]
+
+    def yield_from_inlined(self, st: State, ctx: Ctx, g, e):
+        """`yield from f(...)` with `f` a generator function listed as inlined: its real body runs in a fresh frame; each of
+        its yields is a yield of the caller (the caller's yield invariant of this `yield from` ordinal is owed, the caller's
+        ghost stream grows); loops of the body take their invariants from the caller's contract (env inline_loops)."""
+        _, fi, frame, sub = g
+        tctx, k = self.gen_top(ctx, e)
+        if not tctx.top or tctx.contract is None or tctx.contract.gen is None:
+            raise EngineError(f"{ctx.func.key()}:{e.lineno}: yield from an inlined generator outside a generator under contract")
+
+        def callback(s2: State, val: Any):
+            r = self.do_yield(s2, tctx, tctx.contract, k, val, e.lineno)
+            return r if isinstance(r, list) else [r]
+
+        gctx = sub.sub(cm_body=callback)
+        gctx.specials["$gen_top"] = (tctx, k)
+        gctx.specials["$outer_frame"] = tctx.frame
+        out = []
+        st.depth += 1
+        for s2, oc in self.exec_block(fi.node.body, st, gctx):
+            s2.depth -= 1
+            if isinstance(oc, Normal):
+                out.append((s2, None))
+            elif isinstance(oc, Return):
+                out.append((s2, oc.val))
+            elif isinstance(oc, Raise):
+                out.append((s2, oc))
+            else:
+                raise EngineError("break/continue escaped a generator")
+        return out
 
     def ev_YieldFrom(self, e, st, ctx):
         out = []
         for s2, g in self.eval_expr(e.value, st, ctx):
             if isinstance(g, Raise):
                 out.append((s2, g))
+                continue
+            if isinstance(g, tuple) and g and g[0] == "$inlgen":
+                out.extend(self.yield_from_inlined(s2, ctx, g, e))
                 continue
             if not (isinstance(g, Ref) and META[g.oid].kind == "generator"):
                 raise EngineError(f"{ctx.func.key()}:{e.lineno}: yield from a value that is not a generator under contract")
@@ -270,12 +326,12 @@ class Engine(StmtMixin):
             raise EngineError(f"{ctx.func.key()}:{e.lineno}: yield from an already started generator")
         gd["started"] = gd["finished"] = True
         line = e.lineno
+        ctx, k = self.gen_top(ctx, e)
         if not ctx.top or ctx.contract is None or ctx.contract.gen is None:
             raise EngineError(f"{ctx.func.key()}:{line}: yield from outside a generator under contract")
         mine = ctx.contract
         if mine.gen != c.gen:
             raise EngineError(f"{ctx.func.key()}:{line}: generator protocol mismatch {mine.gen} vs {c.gen}")
-        k = ctx.yield_ord[id(e)]
         sctx = self.spec_ctx(fi, frame, None, {})
         old = st.clone()
         myfr = st.heap[ctx.frame.oid]
@@ -307,7 +363,17 @@ class Engine(StmtMixin):
             self.oblige(mid, self.eval_clause(cl, mid, ictx), "yield-inv", line, f"yieldfrom{k}:{cl.name}", cl.tags)
         # (2) completion
         st.set(ctx.frame, gname, z3.Concat(T_caller0, delta))
-        return self.finish_gencall(st, ctx, fi, c, frame, old, {gname: z3.Concat(Tc0, delta)}, line)
+        sp = {gname: z3.Concat(Tc0, delta)}
+        if c.gen == "copy":
+            # ghost Tprev (stream at the last suspension): delta == delta_prev ++ last chunk; if the callee never suspended
+            # nothing was received and the caller's Tprev stays what it was
+            dprev, last, susp = smt.fresh("delta_prev", smt.Bytes), smt.fresh("last_chunk", smt.Bytes), smt.fresh("suspended", smt.Bo)
+            st.assume(delta == z3.Concat(dprev, last))
+            st.assume(z3.Implies(z3.Not(susp), smt.L(delta) == 0))
+            sp["Tprev"] = z3.Concat(Tc0, dprev)
+            if "Tprev" in myfr:
+                st.set(ctx.frame, "Tprev", z3.If(susp, z3.Concat(T_caller0, dprev), myfr["Tprev"]))
+        return self.finish_gencall(st, ctx, fi, c, frame, old, sp, line)
 
     def assume_some_yield(self, st: State, c: Contract, sctx: Ctx) -> None:
         """The callee is suspended at one of its yields: the disjunction of the per-yield invariants holds."""
@@ -424,6 +490,8 @@ class Engine(StmtMixin):
             fr[g] = ops.lift(self.eval1(ast.parse(init, mode="eval").body, st, sctx))
         if c.gen == "producer" and "OUT" not in fr:
             fr["OUT"] = z3.Empty(smt.BytesSeq)
+        if c.gen == "copy" and "T" in fr and "Tprev" not in fr:
+            fr["Tprev"] = fr["T"]  # ghost: the stream at the last suspension (the initial stream before the first one)
         # class invariants of every symbolic object created for the entry state (self, parameters, nested fields)
         for obj, sh in self.created_shapes:
             self.assume_shape_invariant(st, obj, sh)
